@@ -169,3 +169,302 @@ class PackInfoRead(Contract):
             "archiveinfo:PackInfo._read#comp0": LoopSpec("pack-sizes", inv0, target="_ in range(self.numstreams)", unfold_init=init0, ghost_step=gstep0, ghosts=["cutsR"], cells={"__comp0": "int"}),
             "archiveinfo:PackInfo._read#loop0": LoopSpec("for-crcexist", inv1, target="crcexist in self.digestdefined", unfold_init=init1, unfold_step=step1),
         }
+
+
+# ================================================================================================= SubstreamsInfo._read
+FOLDER_SCHEMA = {"digestdefined": {"type": "bool"}, "crc": {"type": "int", "nullable": True}, "unpack_size": {"type": "int"}}
+
+
+def fsize(c, folders, i):
+    return c.rl(folders).val("unpack_size", i)
+
+
+def nus_of(c, self_):
+    return c.f(self_, "num_unpackstreams_folders")
+
+
+def sizesQ(c, d, cuts, fo, nus, ups, folders, nf, m):
+    """what the format says about global substream m when a Size record is present: it belongs to folder fo[m]; every
+    substream but the last of its folder has a NUMBER in the record, the last one gets what is left of the folder's
+    unpack size"""
+    f = nth(fo, m)
+    first = psum(c, "rnus", nus, f)
+    last = (m + 1 == psum(c, "rnus", nus, f + 1))
+    a, b = nth(cuts, m), nth(cuts, m + 1)
+    explicit = And(b == a + SP.NL(d, a), nth(ups, m) == SP.NV(d, a))
+    rest = nth(ups, m) == fsize(c, folders, f) - (psum(c, "rups", ups, m) - psum(c, "rups", ups, first))
+    return And(f >= 0, f < nf, first <= m, m < psum(c, "rnus", nus, f + 1), a <= b, b <= L(d), Implies(last, And(b == a, rest)), Implies(Not(last), explicit))
+
+
+@contract
+class SubstreamsInfoRead(Contract):
+    """SubStreamsInfo (after its id byte): optional NumUnpackStream record (0x0D + one NUMBER per folder; every folder
+    holds ONE stream when it is absent), optional Size record (0x09 + a NUMBER for every substream except the last of
+    each folder, whose size is what remains of the folder's unpack size; folders without streams have no entry),
+    optional CRC record (0x0A + Digests over the substreams whose CRC is not already known from the folder), END.
+    Without a Size record the sizes are the unpack sizes of the one-stream folders."""
+
+    target = AI + "SubstreamsInfo._read"
+    props = ("C06", "C08", "C05")
+    opaque_numbers = True
+    fork_spec_booleans = True
+    replayable = False  # the folder objects are modelled records (unpack size / digest flag / crc): no concrete harness
+    assumptions = (
+        "Folder.get_unpack_size() is a pure function of the folder (modelled as a column of the folder records); folder.digestdefined implies folder.crc is not None (established by UnpackInfo._retrieve_coders_info since FX11)",
+    )
+
+    def setup(self, c):
+        file = c.instream("file")
+        folders = c.reclist("folders", FOLDER_SCHEMA, as_objects=True, methods={"get_unpack_size": "unpack_size"})
+        self_ = c.obj("SubstreamsInfo", "py7zr.archiveinfo", digests=empty_list(c, "int"), digestsdefined=empty_list(c, "bool"), unpacksizes=None, num_unpackstreams_folders=empty_list(c, "int"))
+        return {"self_": self_, "file": file, "numfolders": c.int("numfolders"), "folders": folders}
+
+    def requires(self, c, self_, file, numfolders, folders):
+        rl = c.rl(folders)
+        return [
+            ("folder-count", And(numfolders >= 0, rl.n == numfolders)),
+            ("defined-folder-digests-have-a-crc", ForAll(lambda k: Implies(rl.val("digestdefined", k), rl.defined("crc", k)), guard=lambda k: And(k >= 0, k < numfolders), n=numfolders)),
+        ]
+
+    def raises(self):
+        return [RaiseSpec("TypeError"), RaiseSpec("struct.error"), RaiseSpec("Bad7zFile"), RaiseSpec("IndexError")]
+
+    def modifies(self, c, self_, file, numfolders, folders):
+        return [(file, "pos"), (self_, "digests"), (self_, "digestsdefined"), (self_, "unpacksizes"), (self_, "num_unpackstreams_folders")]
+
+    def ensures(self, c, old, result, self_, file, numfolders, folders):
+        d, p = old.data(file), old.pos(file)
+        nus = nus_of(c, self_)
+        nf = numfolders
+        has_nus = nth(d, p) == 0x0D
+        cutsN = c.ghost_seq("cutsRN", default=[p + 1])
+        pA = pick(c, has_nus, nth(cutsN, nf), p)
+        out = [
+            ("stream-counts-length", L(nus) == nf),
+            ("stream-counts-default-to-one", ForAll(lambda k: nth(nus, k) == 1, guard=lambda k: And(Not(has_nus), k >= 0, k < nf), over=nus)),
+            ("stream-counts-start", Implies(has_nus, And(L(cutsN) == nf + 1, nth(cutsN, 0) == p + 1))),
+            ("stream-counts", ForAll(lambda k: And(nth(cutsN, k + 1) == nth(cutsN, k) + SP.NL(d, nth(cutsN, k)), nth(nus, k) == SP.NV(d, nth(cutsN, k))), guard=lambda k: And(has_nus, k >= 0, k < nf), over=cutsN, trigger=False)),
+            ("frame-data", eq(c.data(file), d)),
+        ]
+        return out
+
+    def loops(self):
+        def d0(c):
+            return c.old.data(c.bound["file"])
+
+        def G(c, name):
+            return c.eng.ghost[name]
+
+        def nus_def(c):
+            """definition of the prefix sums of the stream counts (a fold over the final list), registered once"""
+            nus = nus_of(c, c.bound["self_"])
+            key = ("nus_def", nus.t.get_id())
+            seen = c.eng.ghost.setdefault("defs", set())
+            if key in seen:
+                return []
+            seen.add(key)
+            c.eng.register_forall(ForAll(lambda k: And(psum(c, "rnus", nus, k + 1) == psum(c, "rnus", nus, k) + nth(nus, k), psum(c, "rnus", nus, k) >= 0), guard=lambda k: And(k >= 0, k < L(nus)), over=nus))
+            return [psum(c, "rnus", nus, 0) == 0]
+
+        # ---- comp0: [read_uint64(file) for _ in range(numfolders)]
+        def inv_c0(c, Lp):
+            return read_numbers_inv(c, c.bound["file"], d0(c), Lp.ghost["start"], G(c, "cutsRN"), Lp.local("__comp0"), Lp.i)
+
+        def init_c0(c, Lp):
+            Lp.ghost["start"] = c.pos(c.bound["file"])
+            c.eng.ghost["cutsRN"] = V.to_seq([Lp.ghost["start"]], "int", "list")
+            return []
+
+        def gstep_c0(c, Lp):
+            c.eng.ghost["cutsRN"] = snoc(G(c, "cutsRN"), c.pos(c.bound["file"]))
+
+        # ---- loop0 / loop1: the Size record
+        def sizes_common(c, m):
+            b = c.bound
+            file, folders = b["file"], b["folders"]
+            d = d0(c)
+            nus = nus_of(c, b["self_"])
+            ups = c.f(b["self_"], "unpacksizes")
+            cuts, fo = G(c, "cutsRZ"), G(c, "foRZ")
+            pos = c.pos(file)
+            complete = pos < L(d)
+            return [
+                ("lengths", And(L(ups) == m, L(cuts) == m + 1, L(fo) == m, m >= 0, nth(cuts, 0) == G(c, "startRZ"))),
+                ("position", And(pos <= L(d), Or(pos == L(d), pos == nth(cuts, m)))),
+                ("nonneg-counts", ForAll(lambda k: nth(nus, k) >= 0, guard=lambda k: And(k >= 0, k < L(nus)), over=nus)),
+                ("size-prefix-sums", ForAll(lambda k: psum(c, "rups", ups, k + 1) == psum(c, "rups", ups, k) + nth(ups, k), guard=lambda k: And(k >= 0, k < m), over=ups, trigger=False)),
+                ("substreams-so-far", ForAll(lambda q: sizesQ(c, d, cuts, fo, nus, ups, folders, L(nus), q), guard=lambda q: And(complete, q >= 0, q < m), over=cuts, trigger=False, cases=lambda q: [q < m - 1, q >= m - 1])),
+                ("frame-data", eq(c.data(file), d)),
+            ]
+
+        def inv_l0(c, Lp):
+            nus = nus_of(c, c.bound["self_"])
+            m = psum(c, "rnus", nus, Lp.i)
+            return [("cursor", L(c.f(c.bound["self_"], "unpacksizes")) == m)] + sizes_common(c, m)
+
+        def init_l0(c, Lp):
+            st = c.pos(c.bound["file"])
+            c.eng.ghost["startRZ"] = st
+            c.eng.ghost["cutsRZ"] = V.to_seq([st], "int", "list")
+            c.eng.ghost["foRZ"] = V.to_seq([], "int", "list")
+            return nus_def(c)
+
+        def gstep_l0(c, Lp):
+            # the remainder entry appended after the inner loop (only for folders that hold a stream)
+            nus = nus_of(c, c.bound["self_"])
+            if c.eng.branch(nth(nus, Lp.i) > 0):
+                c.eng.ghost["cutsRZ"] = snoc(G(c, "cutsRZ"), nth(G(c, "cutsRZ"), L(G(c, "foRZ"))))
+                c.eng.ghost["foRZ"] = snoc(G(c, "foRZ"), Lp.i)
+
+        def inv_l1(c, Lp):
+            nus = nus_of(c, c.bound["self_"])
+            ups = c.f(c.bound["self_"], "unpacksizes")
+            i = c.local("i")
+            m = psum(c, "rnus", nus, i) + Lp.i
+            return [("cursor", And(L(ups) == m, i >= 0, i < L(nus), Lp.i >= 0, Lp.i <= V.max_(nth(nus, i) - 1, 0), Lp.local("totalsize") == psum(c, "rups", ups, m) - psum(c, "rups", ups, psum(c, "rnus", nus, i))))] + sizes_common(c, m)
+
+        def gstep_l1(c, Lp):
+            c.eng.ghost["cutsRZ"] = snoc(G(c, "cutsRZ"), c.pos(c.bound["file"]))
+            c.eng.ghost["foRZ"] = snoc(G(c, "foRZ"), c.local("i"))
+
+        # ---- comp1: sizes of the one-stream folders when there is no Size record
+        def r1(c, k):
+            nus = nus_of(c, c.bound["self_"])
+            if conc(c):
+                return sum(1 for x in nus[: max(k, 0)] if x == 1)
+            return V.SInt(V.uf("rank_one_stream", z3.IntSort(), z3.IntSort())(V._zi(k)))
+
+        def inv_c1(c, Lp):
+            b = c.bound
+            nus = nus_of(c, b["self_"])
+            res = Lp.local("__comp1")
+            i = Lp.i
+            return [
+                ("length", And(L(res) == r1(c, i), r1(c, i) >= 0, r1(c, i) <= i)),
+                ("one-stream-folders-in-order", ForAll(lambda k: And(nth(res, r1(c, k)) == fsize(c, b["folders"], k), r1(c, k) >= 0, r1(c, k) < r1(c, i)), guard=lambda k: And(k >= 0, k < i, nth(nus, k) == 1), over=nus)),
+            ]
+
+        def init_c1(c, Lp):
+            return [r1(c, 0) == 0]
+
+        def step_c1(c, Lp):
+            nus = nus_of(c, c.bound["self_"])
+            return [r1(c, Lp.i + 1) == r1(c, Lp.i) + ite(nth(nus, Lp.i) == 1, 1, 0)]
+
+        # ---- loop2: how many digests the CRC record covers
+        def bearing(c, k):
+            """folder k gets its digests from the record (not from its own folder-level CRC)"""
+            b = c.bound
+            nus = nus_of(c, b["self_"])
+            return Or(nth(nus, k) != 1, Not(c.rl(b["folders"]).val("digestdefined", k)))
+
+        def ND(c, k):
+            if conc(c):
+                nus = nus_of(c, c.bound["self_"])
+                return sum(nus[j] for j in range(max(k, 0)) if bearing(c, j))
+            return V.SInt(V.uf("digests_in_record_before_folder", z3.IntSort(), z3.IntSort())(V._zi(k)))
+
+        def nd_unfold(c, k):
+            nus = nus_of(c, c.bound["self_"])
+            return ND(c, k + 1) == ND(c, k) + ite(bearing(c, k), nth(nus, k), 0)
+
+        def inv_l2(c, Lp):
+            nus = nus_of(c, c.bound["self_"])
+            return [("counts", And(Lp.local("num_digests") == ND(c, Lp.i), Lp.local("num_digests_total") == psum(c, "rnus", nus, Lp.i), ND(c, Lp.i) >= 0))]
+
+        def init_l2(c, Lp):
+            return nus_def(c) + [ND(c, 0) == 0]
+
+        def step_l2(c, Lp):
+            return [nd_unfold(c, Lp.i)]
+
+        # ---- loop3 / loop4: hand the digests out
+        def DQ(c, m):
+            b = c.bound
+            rl = c.rl(b["folders"])
+            nus = nus_of(c, b["self_"])
+            dd, dg = c.f(b["self_"], "digestsdefined"), c.f(b["self_"], "digests")
+            src, fo = G(c, "srcRD"), G(c, "foRD")
+            defined, crcs = G(c, "definedRD"), G(c, "crcsRD")
+            f = nth(fo, m)
+            s_ = nth(src, m)
+            own = And(nth(nus, f) == 1, rl.val("digestdefined", f))
+            rk = rank(c, "rdef", defined, s_)
+            return And(
+                f >= 0, f < L(nus), psum(c, "rnus", nus, f) <= m, m < psum(c, "rnus", nus, f + 1),
+                Implies(s_ < 0, And(own, nth(dd, m), nth(dg, m) == rl.val("crc", f))),
+                Implies(s_ >= 0, And(Not(own), s_ == ND(c, f) + (m - psum(c, "rnus", nus, f)), nth(dd, m) == nth(defined, s_), Implies(nth(dd, m), nth(dg, m) == nth(crcs, rk)), Implies(Not(nth(dd, m)), nth(dg, m) == 0))),
+            )
+
+        def digests_common(c, m):
+            b = c.bound
+            dd, dg = c.f(b["self_"], "digestsdefined"), c.f(b["self_"], "digests")
+            src, fo = G(c, "srcRD"), G(c, "foRD")
+            return [
+                ("lengths", And(L(dd) == m, L(dg) == m, L(src) == m, L(fo) == m, m >= 0)),
+                ("digests-so-far", ForAll(lambda q: DQ(c, q), guard=lambda q: And(q >= 0, q < m), over=dd, trigger=False, cases=lambda q: [q < m - 1, q >= m - 1])),
+            ]
+
+        def inv_l3(c, Lp):
+            nus = nus_of(c, c.bound["self_"])
+            defined = G(c, "definedRD")
+            m = psum(c, "rnus", nus, Lp.i)
+            didx = Lp.local("didx")
+            return [("cursor", And(didx == ND(c, Lp.i), Lp.local("cidx") == rank(c, "rdef", defined, didx), didx >= 0))] + digests_common(c, m)
+
+        def init_l3(c, Lp):
+            c.eng.ghost["definedRD"] = Lp.local("defined")
+            c.eng.ghost["crcsRD"] = Lp.local("crcs")
+            c.eng.ghost["srcRD"] = V.to_seq([], "int", "list")
+            c.eng.ghost["foRD"] = V.to_seq([], "int", "list")
+            return nus_def(c) + [ND(c, 0) == 0, rank(c, "rdef", G(c, "definedRD"), 0) == 0]
+
+        def step_l3(c, Lp):
+            return [nd_unfold(c, Lp.i)]
+
+        def gstep_l3(c, Lp):
+            # the folder-level branch appended one entry without consulting the record
+            b = c.bound
+            rl = c.rl(b["folders"])
+            nus = nus_of(c, b["self_"])
+            i = Lp.i
+            if c.eng.branch(And(nth(nus, i) == 1, rl.val("digestdefined", i), rl.defined("crc", i))):
+                c.eng.ghost["srcRD"] = snoc(G(c, "srcRD"), -1)
+                c.eng.ghost["foRD"] = snoc(G(c, "foRD"), i)
+
+        def inv_l4(c, Lp):
+            nus = nus_of(c, c.bound["self_"])
+            defined = G(c, "definedRD")
+            i = c.local("i")
+            m = psum(c, "rnus", nus, i) + Lp.i
+            didx = Lp.local("didx")
+            return [("cursor", And(didx == ND(c, i) + Lp.i, Lp.local("cidx") == rank(c, "rdef", defined, didx), i >= 0, i < L(nus), Lp.local("numsubstreams") == nth(nus, i), bearing(c, i), ND(c, i) >= 0))] + digests_common(c, m)
+
+        def step_l4(c, Lp):
+            return [rank_unfold(c, "rdef", G(c, "definedRD"), Lp.local("didx"))]
+
+        def gstep_l4(c, Lp):
+            c.eng.ghost["srcRD"] = snoc(G(c, "srcRD"), Lp.local("didx") - 1)
+            c.eng.ghost["foRD"] = snoc(G(c, "foRD"), c.local("i"))
+
+        # ---- loop5: no CRC record at all
+        def inv_l5(c, Lp):
+            b = c.bound
+            nus = nus_of(c, b["self_"])
+            dd, dg = c.f(b["self_"], "digestsdefined"), c.f(b["self_"], "digests")
+            m = psum(c, "rnus", nus, Lp.i)
+            return [("lengths", And(L(dd) == m, L(dg) == m))]
+
+        def init_l5(c, Lp):
+            return nus_def(c)
+
+        return {
+            "archiveinfo:SubstreamsInfo._read#comp0": LoopSpec("stream-counts", inv_c0, target="_ in range(numfolders)", unfold_init=init_c0, ghost_step=gstep_c0, ghosts=["cutsRN"], cells={"__comp0": "int"}),
+            "archiveinfo:SubstreamsInfo._read#loop0": LoopSpec("for-i-sizes", inv_l0, target="i in range(len(self.num_unpackstreams_folders))", unfold_init=init_l0, ghost_step=gstep_l0, ghosts=["cutsRZ", "foRZ"]),
+            "archiveinfo:SubstreamsInfo._read#loop1": LoopSpec("for-j-sizes", inv_l1, target="j in range(1, self.num_unpackstreams_folders[i])", ghost_step=gstep_l1, ghosts=["cutsRZ", "foRZ"]),
+            "archiveinfo:SubstreamsInfo._read#comp1": LoopSpec("one-stream-folder-sizes", inv_c1, target="(i, n) in enumerate(self.num_unpackstreams_folders)", unfold_init=init_c1, unfold_step=step_c1, cells={"__comp1": "int"}),
+            "archiveinfo:SubstreamsInfo._read#loop2": LoopSpec("for-i-count", inv_l2, target="i in range(numfolders)", unfold_init=init_l2, unfold_step=step_l2),
+            "archiveinfo:SubstreamsInfo._read#loop3": LoopSpec("for-i-digests", inv_l3, target="i in range(numfolders)", unfold_init=init_l3, unfold_step=step_l3, ghost_step=gstep_l3, ghosts=["srcRD", "foRD"]),
+            "archiveinfo:SubstreamsInfo._read#loop4": LoopSpec("for-j-digests", inv_l4, target="j in range(numsubstreams)", unfold_step=step_l4, ghost_step=gstep_l4, ghosts=["srcRD", "foRD"]),
+            "archiveinfo:SubstreamsInfo._read#loop5": LoopSpec("for-i-no-crc-record", inv_l5, target="i in range(numfolders)", unfold_init=init_l5),
+        }
